@@ -80,7 +80,7 @@ def select(fam, t, target):
     return out
 
 
-def run(want, targets=('sse', 'avx', 'mmx'), flagsets=None, fp_data=False, only_float=False, n_scale=1.0, report=None, quick_frac=1, n_small=False, job_timeout=None, diff_only=False):
+def run(want, targets=('sse', 'avx', 'mmx'), flagsets=None, fp_data=False, only_float=False, n_scale=1.0, report=None, quick_frac=1, n_small=False, job_timeout=None, diff_only=False, quick_frac_from=0, frac_always=False):
     """Returns (results, info). flagsets: dict target -> list of (label, flags|'default')"""
     from engines.x86sym import family
     t = tier()
@@ -105,8 +105,11 @@ def run(want, targets=('sse', 'avx', 'mmx'), flagsets=None, fp_data=False, only_
             r0 = family.compile_family(exe, target, dflt[target] if sets[0][1] == 'default' else sets[0][1], recipes=fam_all, cwd=b.dir)
             base_code = {r['name']: (r.get('orccode') or {}).get('code') for r in r0}
         for si, (label, fl) in enumerate(sets):
+            if isinstance(fl, str) and fl.startswith('default|'):
+                fl = dflt[target] | int(fl.split('|')[1], 0)
             fl = dflt[target] if fl == 'default' else fl
-            fam_s = fam if (t != 'quick' or quick_frac <= 1) else [e for k, e in enumerate(fam) if (k + si + seed()) % quick_frac == 0]
+            sample = (t == 'quick' or frac_always) and quick_frac > 1 and si >= quick_frac_from
+            fam_s = fam if not sample else [e for k, e in enumerate(fam) if (k + si + seed()) % quick_frac == 0 or e[0].startswith('x_')]
             if diff_only and si > 0:
                 rall = family.compile_family(exe, target, fl, recipes=fam_all, cwd=b.dir)
                 changed = set(r['name'] for r in rall if (r.get('orccode') or {}).get('code') and (r.get('orccode') or {}).get('code') != base_code.get(r['name']))
